@@ -1,14 +1,15 @@
 #!/bin/bash
 # usage: mutant_batch.sh <dir-or-patches...> — apply each breaking mutant, run ALL checks, list the ones that report it
+REPO=${REPO:-/repo}; export VERIF_REPO=$REPO
 cd /verif
 FILES=(); for a in "$@"; do if [ -d "$a" ]; then FILES+=("$a"/*.diff); else FILES+=("$a"); fi; done
 IDS=$(ls rules | sed -n 's/^c\([0-9][0-9]\)\.py$/C\1/p')
 for P in "${FILES[@]}"; do
   P=$(readlink -f "$P")
-  git -C /repo diff --quiet || { echo "/repo dirty"; exit 2; }
-  git -C /repo apply "$P" || { echo "NOAPPLY $(basename $P)"; continue; }
+  git -C $REPO diff --quiet || { echo "$REPO dirty"; exit 2; }
+  git -C $REPO apply "$P" || { echo "NOAPPLY $(basename $P)"; continue; }
   ./check C18 >/dev/null 2>&1
   out=$(echo $IDS | tr ' ' '\n' | xargs -P 8 -I{} sh -c './check {} 2>&1 | grep -E "violated:|TOOL-FAILURE" | sed "s/^/{} /"')
-  git -C /repo checkout -- . ; git -C /repo clean -fdq -e target
+  git -C $REPO checkout -- . ; git -C $REPO clean -fdq -e target
   if [ -z "$out" ]; then echo "MISSED  $(basename $P)"; else echo "caught  $(basename $P): $(echo "$out" | sed 's/ *violated: rule=[^ ]* *[^k]*key=/ /' | tr '\n' ';' | cut -c1-260)"; fi
 done
